@@ -1,9 +1,9 @@
 SPECIFICATION TableSpec
 CONSTANTS
  BNErrs = {"bnval", "bnptr"}
- Variant = "count_dups"
- MCTypes = {"attester"}
- MCMain = "attester"
+ Variant = "coded"
+ MCTypes = {"sync_message", "sync_contribution"}
+ MCMain = "sync_message"
  MCIncl = {"proposer"}
  MCPKs = {"a", "b"}
  MCErrs = {"nil", "other"}
